@@ -97,6 +97,7 @@ type rt_src =
 | RsCli of nat
 | RsSrv of nat
 | RsRelay
+| RsInband of bool
 
 type rt_dir =
 | RdIn
@@ -278,10 +279,125 @@ type rt_apc =
 | RaCheck of nat
 | RaDone
 
+type rt_status =
+| StStandby
+| StHandshaking
+| StTransferring
+
+type rt_hspc =
+| HsRecvAct
+| HsStore of bool * bool
+| HsSendAct of bool
+| HsRecvCfg
+| HsSendCfg
+| HsErr1
+| HsErr2
+| HsFlushIn of bool
+| HsFlushOut of bool
+| HsFlushEnd of bool
+| HsIdle
+
+type rt_out = (rt_src * coq_N list) * bool
+
+type rt_hs = { x_status : rt_status; x_pc : rt_hspc; x_lock : bool;
+               x_bufin : (rt_src * coq_N list) list;
+               x_bufout : (rt_src * coq_N list) list; x_outin : rt_out list;
+               x_outout : rt_out list }
+
+(** val x_status : rt_hs -> rt_status **)
+
+let x_status r =
+  r.x_status
+
+(** val x_outin : rt_hs -> rt_out list **)
+
+let x_outin r =
+  r.x_outin
+
+(** val x_outout : rt_hs -> rt_out list **)
+
+let x_outout r =
+  r.x_outout
+
+(** val rt_hs_init : rt_hs **)
+
+let rt_hs_init =
+  { x_status = StHandshaking; x_pc = HsRecvAct; x_lock = false; x_bufin = [];
+    x_bufout = []; x_outin = []; x_outout = [] }
+
+(** val rt_buf : rt_dir -> rt_hs -> (rt_src * coq_N list) list **)
+
+let rt_buf d x =
+  match d with
+  | RdIn -> x.x_bufin
+  | RdOut -> x.x_bufout
+
+(** val rt_set_buf :
+    rt_dir -> (rt_src * coq_N list) list -> rt_hs -> rt_hs **)
+
+let rt_set_buf d b x =
+  match d with
+  | RdIn ->
+    { x_status = x.x_status; x_pc = x.x_pc; x_lock = x.x_lock; x_bufin = b;
+      x_bufout = x.x_bufout; x_outin = x.x_outin; x_outout = x.x_outout }
+  | RdOut ->
+    { x_status = x.x_status; x_pc = x.x_pc; x_lock = x.x_lock; x_bufin =
+      x.x_bufin; x_bufout = b; x_outin = x.x_outin; x_outout = x.x_outout }
+
+(** val rt_add_out : rt_dir -> rt_out -> rt_hs -> rt_hs **)
+
+let rt_add_out d o x =
+  match d with
+  | RdIn ->
+    { x_status = x.x_status; x_pc = x.x_pc; x_lock = x.x_lock; x_bufin =
+      x.x_bufin; x_bufout = x.x_bufout; x_outin = (app x.x_outin (o :: []));
+      x_outout = x.x_outout }
+  | RdOut ->
+    { x_status = x.x_status; x_pc = x.x_pc; x_lock = x.x_lock; x_bufin =
+      x.x_bufin; x_bufout = x.x_bufout; x_outin = x.x_outin; x_outout =
+      (app x.x_outout (o :: [])) }
+
+(** val rt_set_pc_lock : rt_hspc -> bool -> rt_hs -> rt_hs **)
+
+let rt_set_pc_lock pc lk x =
+  { x_status = x.x_status; x_pc = pc; x_lock = lk; x_bufin = x.x_bufin;
+    x_bufout = x.x_bufout; x_outin = x.x_outin; x_outout = x.x_outout }
+
+(** val rt_hs_finish : rt_status -> rt_hs -> rt_hs **)
+
+let rt_hs_finish st x =
+  { x_status = st; x_pc = HsIdle; x_lock = false; x_bufin = x.x_bufin;
+    x_bufout = x.x_bufout; x_outin = x.x_outin; x_outout = x.x_outout }
+
+(** val rt_set_status : rt_status -> rt_hs -> rt_hs **)
+
+let rt_set_status st x =
+  { x_status = st; x_pc = x.x_pc; x_lock = x.x_lock; x_bufin = x.x_bufin;
+    x_bufout = x.x_bufout; x_outin = x.x_outin; x_outout = x.x_outout }
+
+(** val rt_drop_bytes :
+    nat -> (rt_src * coq_N list) list -> (rt_src * coq_N list) list **)
+
+let rec rt_drop_bytes k b =
+  match k with
+  | O -> b
+  | S _ ->
+    (match b with
+     | [] -> []
+     | p :: r ->
+       let (src, bs) = p in
+       if Nat.leb (length bs) k
+       then rt_drop_bytes (sub k (length bs)) r
+       else (src, (skipn k bs)) :: r)
+
+(** val rt_buf_bytes : (rt_src * coq_N list) list -> nat **)
+
+let rt_buf_bytes b =
+  length (concat (map snd b))
+
 type rt_state = { r_pairs : rt_pair list; r_lis : bool; r_apc : rt_apc;
                   r_connector : bool; r_trelay : nat option; r_era : 
-                  nat; r_tconnected : bool;
-                  r_parked : (rt_src * coq_N list) list }
+                  nat; r_tconnected : bool; r_x : rt_hs }
 
 (** val r_pairs : rt_state -> rt_pair list **)
 
@@ -293,18 +409,23 @@ let r_pairs r =
 let r_trelay r =
   r.r_trelay
 
+(** val r_x : rt_state -> rt_hs **)
+
+let r_x r =
+  r.r_x
+
 (** val rt_init : rt_state **)
 
 let rt_init =
   { r_pairs = []; r_lis = true; r_apc = RaAccept; r_connector = true;
-    r_trelay = None; r_era = O; r_tconnected = false; r_parked = [] }
+    r_trelay = None; r_era = O; r_tconnected = false; r_x = rt_hs_init }
 
 (** val rt_with_pairs : rt_state -> rt_pair list -> rt_state **)
 
 let rt_with_pairs s ps =
   { r_pairs = ps; r_lis = s.r_lis; r_apc = s.r_apc; r_connector =
     s.r_connector; r_trelay = s.r_trelay; r_era = s.r_era; r_tconnected =
-    s.r_tconnected; r_parked = s.r_parked }
+    s.r_tconnected; r_x = s.r_x }
 
 (** val rt_upd_pair : rt_state -> nat -> (rt_pair -> rt_pair) -> rt_state **)
 
@@ -320,14 +441,29 @@ type rt_label =
 | RLCheck
 | RLHandler of nat * pev list option * bool
 | RLWriter of nat * rt_dir
-| RLPump of nat * rt_dir * nat * bool
+| RLPump of nat * rt_dir * nat
 | RLPumpEof of nat * rt_dir
 | RLPumpExit of nat * rt_dir
 | RLPumpSpin of nat * rt_dir
 | RLSetConnector of bool
-| RLActFlag of bool
-| RLInject of rt_dir * coq_N list
+| RLInband of rt_dir * coq_N list
+| RLHsRead of nat * bool * bool * bool
+| RLHs of coq_N list
 | RLReset
+
+(** val rt_with_x : rt_state -> rt_hs -> rt_state **)
+
+let rt_with_x s x =
+  { r_pairs = s.r_pairs; r_lis = s.r_lis; r_apc = s.r_apc; r_connector =
+    s.r_connector; r_trelay = s.r_trelay; r_era = s.r_era; r_tconnected =
+    s.r_tconnected; r_x = x }
+
+(** val rt_handshaking : rt_state -> bool **)
+
+let rt_handshaking s =
+  match s.r_x.x_status with
+  | StHandshaking -> true
+  | _ -> false
 
 (** val rt_half_push : (rt_src * coq_N list) -> rt_half -> rt_half **)
 
@@ -352,6 +488,48 @@ let rt_half_close_chan h =
 let rt_chan_has_room h =
   (&&) (negb h.h_chan_closed)
     (N.ltb (N.of_nat (length h.h_chan)) rtunnel_chan_cap)
+
+(** val rt_route :
+    rt_state -> rt_dir -> (rt_src * coq_N list) -> rt_hspc -> bool ->
+    rt_state option **)
+
+let rt_route s d x pc lk =
+  let x' = rt_set_pc_lock pc lk s.r_x in
+  (match s.r_trelay with
+   | Some c ->
+     if s.r_tconnected
+     then (match nth_error s.r_pairs c with
+           | Some p ->
+             (match p.p_br with
+              | Some b ->
+                if rt_chan_has_room (rt_half_of d b)
+                then Some
+                       (rt_with_x
+                         (rt_upd_pair s c
+                           (rt_set_br
+                             (rt_set_half d (rt_half_push x (rt_half_of d b))
+                               b))) x')
+                else None
+              | None -> None)
+           | None -> None)
+     else Some (rt_with_x s (rt_add_out d (x, s.r_tconnected) x'))
+   | None -> Some (rt_with_x s (rt_add_out d (x, s.r_tconnected) x')))
+
+(** val rt_reset : rt_state -> rt_hs -> rt_state **)
+
+let rt_reset s x =
+  let ps =
+    match s.r_trelay with
+    | Some c ->
+      upd c (fun p ->
+        match p.p_br with
+        | Some b -> rt_set_br (rt_set_relay false b) p
+        | None -> p) s.r_pairs
+    | None -> s.r_pairs
+  in
+  { r_pairs = ps; r_lis = false; r_apc = s.r_apc; r_connector =
+  s.r_connector; r_trelay = None; r_era = (S s.r_era); r_tconnected = false;
+  r_x = x }
 
 (** val rt_handler :
     coq_N list -> coq_N list -> coq_N list -> coq_N list -> rt_state -> nat
@@ -448,8 +626,7 @@ let rt_handler ch1 sh4 ch2 sh3 s c p dial fail =
            RtStoreRelay; p_first = p0.p_first; p_sfirst = p0.p_sfirst; p_br =
            p0.p_br; p_won = (Some s.r_era) }) s.r_pairs); r_lis = s.r_lis;
          r_apc = s.r_apc; r_connector = s.r_connector; r_trelay = (Some c);
-         r_era = s.r_era; r_tconnected = s.r_tconnected; r_parked =
-         s.r_parked })
+         r_era = s.r_era; r_tconnected = s.r_tconnected; r_x = s.r_x })
   | RtStoreRelay ->
     (match p.p_br with
      | Some b ->
@@ -478,8 +655,8 @@ let rt_handler ch1 sh4 ch2 sh3 s c p dial fail =
   | RtCloseLis ->
     Some { r_pairs = (upd c (rt_set_pc (RtDone RoWon)) s.r_pairs); r_lis =
       false; r_apc = s.r_apc; r_connector = s.r_connector; r_trelay =
-      s.r_trelay; r_era = s.r_era; r_tconnected = s.r_tconnected; r_parked =
-      s.r_parked }
+      s.r_trelay; r_era = s.r_era; r_tconnected = s.r_tconnected; r_x =
+      s.r_x }
   | RtCloseC ->
     (match p.p_br with
      | Some b ->
@@ -536,7 +713,7 @@ let rt_step ch1 sh4 ch2 sh3 s = function
                 Some { r_pairs = (upd c (rt_set_pc RtAccepted) s.r_pairs);
                   r_lis = s.r_lis; r_apc = (RaCheck c); r_connector =
                   s.r_connector; r_trelay = s.r_trelay; r_era = s.r_era;
-                  r_tconnected = s.r_tconnected; r_parked = s.r_parked }
+                  r_tconnected = s.r_tconnected; r_x = s.r_x }
               | _ -> None)
            | None -> None)
      else None
@@ -548,7 +725,7 @@ let rt_step ch1 sh4 ch2 sh3 s = function
      then None
      else Some { r_pairs = s.r_pairs; r_lis = false; r_apc = RaDone;
             r_connector = s.r_connector; r_trelay = s.r_trelay; r_era =
-            s.r_era; r_tconnected = s.r_tconnected; r_parked = s.r_parked }
+            s.r_era; r_tconnected = s.r_tconnected; r_x = s.r_x }
    | _ -> None)
 | RLCheck ->
   (match s.r_apc with
@@ -557,13 +734,13 @@ let rt_step ch1 sh4 ch2 sh3 s = function
       | Some _ ->
         Some { r_pairs = (upd c (rt_give_up RoBusy) s.r_pairs); r_lis =
           false; r_apc = RaDone; r_connector = s.r_connector; r_trelay =
-          s.r_trelay; r_era = s.r_era; r_tconnected = s.r_tconnected;
-          r_parked = s.r_parked }
+          s.r_trelay; r_era = s.r_era; r_tconnected = s.r_tconnected; r_x =
+          s.r_x }
       | None ->
         Some { r_pairs = (upd c (rt_set_pc RtLoadConn) s.r_pairs); r_lis =
           s.r_lis; r_apc = RaAccept; r_connector = s.r_connector; r_trelay =
-          s.r_trelay; r_era = s.r_era; r_tconnected = s.r_tconnected;
-          r_parked = s.r_parked })
+          s.r_trelay; r_era = s.r_era; r_tconnected = s.r_tconnected; r_x =
+          s.r_x })
    | _ -> None)
 | RLHandler (c, dial, fail) ->
   (match nth_error s.r_pairs c with
@@ -609,7 +786,7 @@ let rt_step ch1 sh4 ch2 sh3 s = function
          | None -> None)
       | None -> None)
    | None -> None)
-| RLPump (c, d, n, park) ->
+| RLPump (c, d, n) ->
   (match nth_error s.r_pairs c with
    | Some p ->
      (match p.p_br with
@@ -624,16 +801,17 @@ let rt_step ch1 sh4 ch2 sh3 s = function
                      (Nat.leb n (length e.e_rx)))
                    (N.leb (N.of_nat n) rtunnel_pump_bufsize)
               then let x = ((rt_tag d c), (firstn n e.e_rx)) in
-                   if park
-                   then if b.b_relay
-                        then Some { r_pairs =
+                   if (&&) b.b_relay (rt_handshaking s)
+                   then if s.r_x.x_lock
+                        then None
+                        else Some { r_pairs =
                                (upd c (rt_set_src_end d (rt_end_drop n e))
                                  s.r_pairs); r_lis = s.r_lis; r_apc =
                                s.r_apc; r_connector = s.r_connector;
                                r_trelay = s.r_trelay; r_era = s.r_era;
-                               r_tconnected = s.r_tconnected; r_parked =
-                               (app s.r_parked (x :: [])) }
-                        else None
+                               r_tconnected = s.r_tconnected; r_x =
+                               (rt_set_buf d (app (rt_buf d s.r_x) (x :: []))
+                                 s.r_x) }
                    else if rt_chan_has_room h
                         then Some
                                (rt_upd_pair s c (fun p0 ->
@@ -703,43 +881,73 @@ let rt_step ch1 sh4 ch2 sh3 s = function
 | RLSetConnector v ->
   Some { r_pairs = s.r_pairs; r_lis = s.r_lis; r_apc = s.r_apc; r_connector =
     v; r_trelay = s.r_trelay; r_era = s.r_era; r_tconnected = s.r_tconnected;
-    r_parked = s.r_parked }
-| RLActFlag v ->
-  Some { r_pairs = s.r_pairs; r_lis = s.r_lis; r_apc = s.r_apc; r_connector =
-    s.r_connector; r_trelay = s.r_trelay; r_era = s.r_era; r_tconnected = v;
-    r_parked = s.r_parked }
-| RLInject (d, bs) ->
-  (match s.r_trelay with
-   | Some c ->
-     if s.r_tconnected
-     then (match nth_error s.r_pairs c with
-           | Some p ->
-             (match p.p_br with
-              | Some b ->
-                if rt_chan_has_room (rt_half_of d b)
-                then Some
-                       (rt_upd_pair s c
-                         (rt_set_br
-                           (rt_set_half d
-                             (rt_half_push (RsRelay, bs) (rt_half_of d b)) b)))
-                else None
-              | None -> None)
-           | None -> None)
+    r_x = s.r_x }
+| RLInband (d, bs) ->
+  (match bs with
+   | [] -> None
+   | _ :: _ ->
+     let x = ((RsInband s.r_tconnected), bs) in
+     if rt_handshaking s
+     then if s.r_x.x_lock
+          then None
+          else if s.r_tconnected
+               then Some
+                      (rt_with_x s (rt_add_out d (x, s.r_tconnected) s.r_x))
+               else Some
+                      (rt_with_x s
+                        (rt_set_buf d (app (rt_buf d s.r_x) (x :: [])) s.r_x))
+     else Some (rt_with_x s (rt_add_out d (x, s.r_tconnected) s.r_x)))
+| RLHsRead (k, ok, tun, conf) ->
+  (match s.r_x.x_pc with
+   | HsRecvAct ->
+     if (&&) (Nat.leb (S O) k) (Nat.leb k (rt_buf_bytes s.r_x.x_bufin))
+     then Some
+            (rt_with_x s
+              (rt_set_pc_lock (if ok then HsStore (tun, conf) else HsErr1)
+                false (rt_set_buf RdIn (rt_drop_bytes k s.r_x.x_bufin) s.r_x)))
      else None
-   | None -> None)
+   | HsRecvCfg ->
+     if (&&) (Nat.leb (S O) k) (Nat.leb k (rt_buf_bytes s.r_x.x_bufout))
+     then Some
+            (rt_with_x s
+              (rt_set_pc_lock (if ok then HsSendCfg else HsErr1) false
+                (rt_set_buf RdOut (rt_drop_bytes k s.r_x.x_bufout) s.r_x)))
+     else None
+   | _ -> None)
+| RLHs bs ->
+  (match s.r_x.x_pc with
+   | HsStore (tun, conf) ->
+     Some { r_pairs = s.r_pairs; r_lis = s.r_lis; r_apc = s.r_apc;
+       r_connector = s.r_connector; r_trelay = s.r_trelay; r_era = s.r_era;
+       r_tconnected = tun; r_x =
+       (rt_set_pc_lock (HsSendAct conf) false s.r_x) }
+   | HsSendAct conf ->
+     rt_route s RdIn (RsRelay, bs)
+       (if conf then HsRecvCfg else HsFlushIn false) (negb conf)
+   | HsSendCfg -> rt_route s RdOut (RsRelay, bs) (HsFlushIn true) true
+   | HsErr1 -> rt_route s RdOut (RsRelay, bs) HsErr2 false
+   | HsErr2 -> rt_route s RdIn (RsRelay, bs) (HsFlushIn false) true
+   | HsFlushIn conf ->
+     (match s.r_x.x_bufin with
+      | [] -> Some (rt_with_x s (rt_set_pc_lock (HsFlushOut conf) true s.r_x))
+      | x :: rest ->
+        rt_route (rt_with_x s (rt_set_buf RdIn rest s.r_x)) RdIn x (HsFlushIn
+          conf) true)
+   | HsFlushOut conf ->
+     (match s.r_x.x_bufout with
+      | [] -> Some (rt_with_x s (rt_set_pc_lock (HsFlushEnd conf) true s.r_x))
+      | x :: rest ->
+        rt_route (rt_with_x s (rt_set_buf RdOut rest s.r_x)) RdOut x
+          (HsFlushOut conf) true)
+   | HsFlushEnd conf ->
+     if conf
+     then Some (rt_with_x s (rt_hs_finish StTransferring s.r_x))
+     else Some (rt_reset s (rt_hs_finish StStandby s.r_x))
+   | _ -> None)
 | RLReset ->
-  let ps =
-    match s.r_trelay with
-    | Some c ->
-      upd c (fun p ->
-        match p.p_br with
-        | Some b -> rt_set_br (rt_set_relay false b) p
-        | None -> p) s.r_pairs
-    | None -> s.r_pairs
-  in
-  Some { r_pairs = ps; r_lis = false; r_apc = s.r_apc; r_connector =
-  s.r_connector; r_trelay = None; r_era = (S s.r_era); r_tconnected = false;
-  r_parked = s.r_parked }
+  (match s.r_x.x_status with
+   | StTransferring -> Some (rt_reset s (rt_set_status StStandby s.r_x))
+   | _ -> None)
 
 type rt_obs =
 | RtObsRefused
